@@ -25,6 +25,11 @@ def run(ctx):
     strs += gens.soup_urls(ctx.rng, 3000 if ctx.quick else 40000)
     strs += [f["witness"][0][1][1] for f in ctx.findings if f.get("witness")]
     strs += ["foo://user@host:0/p?q#f", "http://u:p@h:0", "//:p@h:0/", "http://u@[::1]:0/", "x://u:@h:00", "http://u@h:65535", "http://@h:1"]
+    # characters a Unicode-aware test (case folding, str.isdigit/isalnum, \d, IGNORECASE) takes for ASCII
+    # scheme characters, in every position of a would-be scheme; and for digits in the port
+    for a in gens.SCHEME_ALIASES:
+        strs += [a + "ttp://u:p@h:8/p?q#f", "ht" + a + "p://u:p@h:8/p", "x" + a + ":y", a + ":y", "http" + a + "://h/", "tel" + a + ":12",
+                 "http://h:8" + a + "/", "http://h:" + a + "/", "//u:p@h:" + a + "1/p"]
     strs += gens.leading_runs(["http://u:p@h:8/p?q#f", "//h/p", "a:b", "/p?q", "HTTP://H"], 2 if ctx.quick else 3)
     reqs = []
     for s in strs:
